@@ -109,11 +109,15 @@ pub fn parse_swift_digits(input: &str, field_name: &str) -> Result<String, Parse
 /// Parse SWIFT character set (a-z, A-Z, 0-9, and special chars)
 ///
 /// SWIFT 'x' character set includes: a-z, A-Z, 0-9, and special characters:
-/// / - ? : ( ) . , ' + { } SPACE CR LF and other printable ASCII
+/// / - ? : ( ) . , ' + { } SPACE and other printable ASCII
+///
+/// CR LF belong to the 'x' set only as the line separator: callers split multi-line content into
+/// lines first, so a line (or a single-line component) that still contains a CR or LF is rejected.
+/// A stray CR kept inside a stored line would be swallowed by the CRLF of the next serialisation.
 pub fn parse_swift_chars(input: &str, field_name: &str) -> Result<String, ParseError> {
     // SWIFT x character set: alphanumeric + special characters
-    // Common special chars: / - ? : ( ) . , ' + { } SPACE CR LF % & * ; < = > @ [ ] _ $ ! " # |
-    const SWIFT_SPECIAL: &str = "/-?:().,'+{} \r\n%&*;<=>@[]_$!\"#|";
+    // Common special chars: / - ? : ( ) . , ' + { } SPACE % & * ; < = > @ [ ] _ $ ! " # |
+    const SWIFT_SPECIAL: &str = "/-?:().,'+{} %&*;<=>@[]_$!\"#|";
 
     if !input
         .chars()
